@@ -125,6 +125,10 @@ func (e *endpoint) WritePacket(r *stack.Route, hdr buffer.Prependable, payload b
 	protocol tcpip.TransportProtocolNumber, ttl uint8) *tcpip.Error {
 	// 预留ip报文的空间 在传输层头部加上ip头最少20字节预留
 	ip := header.IPv4(hdr.Prepend(header.IPv4MinimumSize))
+	if hdr.UsedLength()+payload.Size() > maxTotalSize {
+		// The packet does not fit the 16-bit total length field.
+		return tcpip.ErrMessageTooLong
+	}
 	length := uint16(hdr.UsedLength() + payload.Size())
 	id := uint32(0)
 	// 如果报文长度大于68
